@@ -97,74 +97,34 @@ theorem dec12_eq_entry12 (bs : List Nat) (k : Nat) (hk : k < (dec12 bs).length)
 
 /-! ### the FAT12 end-of-table control flow, closed form -/
 
-private theorem ctl_step (n f k : Nat) (hlt : 3 * k < 2 * n) (hk : k < total12 n)
-    (hne : (3 * k + 4) / 2 ≠ n - 1) :
-    parse12Ctl n (total12 n) (f + 1) k = parse12Ctl n (total12 n) f (k + 1) := by
-  rw [parse12Ctl]; simp [hlt, hne]; omega
-
-/-- index at which the loop leaves -/
-def stopIdx (n : Nat) : Nat :=
-  if n % 3 = 2 then total12 n else if n % 3 = 1 then total12 n - 1 else total12 n - 2
-
-private theorem ctl_run (n : Nat) (hn : n % 2 = 0) (d : Nat) :
-    ∀ k f, k + d = stopIdx n → d < f →
-      parse12Ctl n (total12 n) f k = parse12Ctl n (total12 n) (f - d) (stopIdx n) := by
+theorem ctl_run (n : Nat) (d : Nat) :
+    ∀ k f, k + d = total12 n → d < f →
+      parse12Ctl n (total12 n) f k = (total12 n, total12 n) := by
   induction d with
-  | zero => intro k f hk _; simp at hk; simp [hk]
+  | zero =>
+    intro k f hk hf
+    obtain ⟨f', rfl⟩ : ∃ f', f = f' + 1 := ⟨f - 1, by omega⟩
+    simp at hk; subst hk
+    rw [parse12Ctl]; split <;> simp
   | succ d ih =>
     intro k f hk hf
     obtain ⟨f', rfl⟩ : ∃ f', f = f' + 1 := ⟨f - 1, by omega⟩
-    have hstop : k < stopIdx n := by omega
-    have facts : 3 * k < 2 * n ∧ k < total12 n ∧ (3 * k + 4) / 2 ≠ n - 1 := by
-      unfold stopIdx total12 at *
-      split at hstop <;> (try split at hstop) <;> omega
-    rw [ctl_step n f' k facts.1 facts.2.1 facts.2.2, ih (k + 1) f' (by omega) (by omega)]
-    congr 1; omega
+    have h1 : 3 * k < 2 * n := by unfold total12 at hk; omega
+    have h2 : ¬ total12 n ≤ k := by omega
+    rw [parse12Ctl]; simp only [h1, h2, if_true, if_false]
+    exact ih (k + 1) f' (by omega) (by omega)
 
-/-- **Closed form of the FAT12 tail handling** (table length even, ≥ 6 bytes):
-    * `n ≡ 2 (mod 3)`: all `⌊2n/3⌋` entries are kept;
-    * `n ≡ 1 (mod 3)`: the last entry is parsed and then deleted (`del self.fat[-1]`);
-    * `n ≡ 0 (mod 3)`: the loop stops one entry early and the last cell is deleted. -/
-theorem parse12Ctl_closed (n : Nat) (hn : n % 2 = 0) (h6 : 6 ≤ n) :
-    parse12Ctl n (total12 n) (total12 n + 2) 0 =
-      if n % 3 = 2 then (total12 n, total12 n)
-      else if n % 3 = 1 then (total12 n, total12 n - 1)
-      else (total12 n - 1, total12 n - 1) := by
-  rw [ctl_run n hn (stopIdx n) 0 (total12 n + 2) (by simp) (by unfold stopIdx; split <;> (try split) <;> omega)]
-  obtain ⟨f, hf⟩ : ∃ f, total12 n + 2 - stopIdx n = f + 1 :=
-    ⟨total12 n + 1 - stopIdx n, by unfold stopIdx; split <;> (try split) <;> omega⟩
-  rw [hf, parse12Ctl]
-  unfold stopIdx total12 at *
-  by_cases h2 : n % 3 = 2
-  · simp [h2]
-  · by_cases h1 : n % 3 = 1
-    · simp [h2, h1]
-      have : 3 * (2 * n / 3 - 1) < 2 * n := by omega
-      simp [this]
-      have h3 : ¬ (2 * n / 3 ≤ 2 * n / 3 - 1) := by omega
-      simp [h3]
-      have : (3 * (2 * n / 3 - 1) + 4) / 2 = n - 1 := by omega
-      simp [this]; omega
-    · simp [h2, h1]
-      have : 3 * (2 * n / 3 - 2) < 2 * n := by omega
-      simp [this]
-      have h3 : ¬ (2 * n / 3 ≤ 2 * n / 3 - 2) := by omega
-      simp [h3]
-      have : (3 * (2 * n / 3 - 2) + 4) / 2 = n - 1 := by omega
-      simp [this]; omega
+/-- **Closed form of the FAT12 parse loop**: for every table length all
+    `⌊2n/3⌋` entries are kept (no AssertionError, nothing dropped). -/
+theorem parse12Ctl_closed (n : Nat) :
+    parse12Ctl n (total12 n) (total12 n + 2) 0 = (total12 n, total12 n) :=
+  ctl_run n (total12 n) 0 (total12 n + 2) (by simp) (by omega)
 
-/-- `_parse_fat` never raises its AssertionError on a FAT12 table of even length ≥ 6,
-    and returns the specification's entries — all of them only when `n ≡ 2 (mod 3)`. -/
-theorem parse12_closed (bs : List Nat) (hn : bs.length % 2 = 0) (h6 : 6 ≤ bs.length) :
-    parse12 bs = .ok ((dec12 bs).take
-      (if bs.length % 3 = 2 then total12 bs.length else total12 bs.length - 1)) := by
+/-- `_parse_fat` returns exactly the specification's entries of a FAT12 table, for every length -/
+theorem parse12_closed (bs : List Nat) :
+    parse12 bs = .ok ((dec12 bs).take (total12 bs.length)) := by
   unfold parse12
-  simp only [parse12Ctl_closed bs.length hn h6]
-  by_cases h2 : bs.length % 3 = 2
-  · simp [h2]
-  · by_cases h1 : bs.length % 3 = 1
-    · simp [h1]
-    · simp [h2, h1]
+  simp [parse12Ctl_closed bs.length]
 
 /-! ## FAT16 -/
 
@@ -250,6 +210,54 @@ theorem ser32_dec32 (bs : List Nat) (hb : allBytes bs) :
     split
     · rename_i b0 b1 b2 b3 rest; exact absurd rfl (hne b0 b1 b2 b3 rest)
     · rfl
+
+theorem res32_length (bs : List Nat) : (res32 bs).length = (dec32 bs).length := by
+  fun_induction dec32 bs with
+  | case1 b0 b1 b2 b3 rest ih => simp [res32, ih]
+  | case2 bs hne =>
+    unfold res32
+    split
+    · rename_i a b c d rest; exact absurd rfl (hne a b c d rest)
+    · rfl
+
+theorem or_hi (lo hi : Nat) (h : lo < 268435456) : lo ||| hi * 268435456 = lo + hi * 268435456 := by
+  have := Nat.shiftLeft_add_eq_or_of_lt (show lo < 2 ^ 28 from h) hi
+  rw [Nat.shiftLeft_eq, show (2 : Nat) ^ 28 = 268435456 from rfl] at this
+  rw [Nat.or_comm]; omega
+
+/-- **FAT32 parse → serialise is the identity on the whole table** (every length
+    that is a multiple of 4), reserved bits included. -/
+theorem ser32r_parse32 (bs : List Nat) (hb : allBytes bs) (h4 : bs.length % 4 = 0) :
+    ser32 (orList (dec32 bs) (res32 bs)) = bs := by
+  fun_induction dec32 bs with
+  | case1 b0 b1 b2 b3 rest ih =>
+    have h0 : b0 < 256 := hb b0 (by simp)
+    have h1 : b1 < 256 := hb b1 (by simp)
+    have h2 : b2 < 256 := hb b2 (by simp)
+    have h3 : b3 < 256 := hb b3 (by simp)
+    have hr : allBytes rest := fun x hx => hb x (by simp [hx])
+    simp only [res32, orList, ser32]
+    rw [or_hi _ _ (by omega), ih hr (by simp at h4; omega)]
+    congr 1
+    · omega
+    · congr 1
+      · omega
+      · congr 1
+        · omega
+        · congr 1; omega
+  | case2 bs hne =>
+    match bs with
+    | [] => rfl
+    | [_] => simp at h4
+    | [_, _] => simp at h4
+    | [_, _, _] => simp at h4
+    | a :: b :: c :: d :: rest => exact absurd rfl (hne a b c d rest)
+
+theorem ser32r_parse32' (bs : List Nat) (hb : allBytes bs) (h4 : bs.length % 4 = 0) :
+    ser32r (parse32 bs) (parse32Reserved bs) = bs := by
+  unfold ser32r parse32 parse32Reserved
+  rw [if_pos (res32_length bs)]
+  exact ser32r_parse32 bs hb h4
 
 theorem dec32_eq_entry32 (bs : List Nat) (k : Nat) (hk : k < (dec32 bs).length)
     (hb : allBytes bs) : (dec32 bs)[k] = entry32 bs k := by
